@@ -140,6 +140,17 @@ def ob_coordinate_arithmetic(ctx, res):
             res.fail("coordArith/%s/%s/%s/%s" % (k[0], a["op"], a["l"], a["r"]), _site(m, b, a),
                      "%s %s of `%s` and `%s` can overflow: coordinates and resolutions range up to u32::MAX (panic with overflow checks; wrap-around otherwise, "
                      "which stalls the zoom tiling loop). Use saturating/checked/wider arithmetic, or list the site with its bound" % (a["ty"], a["op"], a["l"], a["r"]))
+        # arithmetic through the operator traits on references (`|z| z * 4` with z: &u32) is a call into core, which performs the same
+        # overflow check: treat it like an overflow-checked primitive operation
+        for c in b["calls"]:
+            mm = re.match(r"<&(?:'\w+ )?(?:mut )?(u8|u16|u32|i8|i16|i32) as std::ops::(Add|Mul|Shl)<&?(?:'\w+ )?(?:u8|u16|u32|i8|i16|i32)>>::(?:add|mul|shl)$", c["callee"])
+            if not mm:
+                continue
+            n += 1
+            seen += 1
+            res.fail("coordArith/%s/%s/by-reference" % (_short(b["fn"]), mm.group(2)), _site(m, b, c),
+                     "%s %s through `%s` (an operand is a reference, e.g. a closure parameter) is overflow-checked inside core: it can overflow for sizes near u32::MAX "
+                     "(panic with overflow checks, wrapped value otherwise); use checked/saturating arithmetic" % (mm.group(1), mm.group(2), c["callee"]))
     res.count("overflow_checked_sites_on_path", seen)
     res.count("narrow_add_mul_sites", n)
     if seen < 40:
